@@ -732,16 +732,19 @@ fn table_matches(t: &MTable, o: &Observed) -> Result<(), String> {
     Ok(())
 }
 
-fn secondary_matches(t: &MTable, o: &Observed) -> Result<(), String> {
+fn secondary_matches(t: &MTable, o: &Observed) -> Result<(), (&'static str, String)> {
     if t.config != o.config {
-        return Err(format!("config {:?}, expected {:?}", o.config, t.config));
+        return Err(("config", format!("config {:?}, expected {:?}", o.config, t.config)));
     }
     if t.schema_meta != o.schema_meta {
-        return Err(format!("schema metadata {:?}, expected {:?}", o.schema_meta, t.schema_meta));
+        return Err((
+            "schema-metadata",
+            format!("schema metadata {:?}, expected {:?}", o.schema_meta, t.schema_meta),
+        ));
     }
     let want: BTreeSet<String> = t.indices.keys().cloned().collect();
     if want != o.indices {
-        return Err(format!("index names {:?}, expected {:?}", o.indices, want));
+        return Err(("index-names", format!("index names {:?}, expected {:?}", o.indices, want)));
     }
     Ok(())
 }
@@ -783,6 +786,8 @@ async fn filter_uids_inner(ds: &Dataset, filter: &str, use_index: bool) -> Resul
 #[derive(Clone, Debug)]
 pub struct LogEntry {
     pub kind: String,
+    /// uids whose stored values the transaction wrote, moved, inserted or removed
+    pub uids: BTreeSet<i32>,
     /// index into `tables` the transaction read / produced
     pub read_idx: usize,
     pub commit_idx: usize,
@@ -934,7 +939,33 @@ impl World {
         let kindsj = self.kinds.join(">");
         let their_touched: BTreeSet<i32> = between.iter().flat_map(|c| c.touched.iter().copied()).collect();
         let rel = relation(&eff.touched(), &their_touched, &base.frags);
-        let keyf = |oracle: &str| format!("{ptag}/{oracle}/{kindsj}/{rel}");
+        // classification context: what this transaction raced with (not the whole history)
+        let uniq = |mut v: Vec<String>| {
+            v.sort();
+            v.dedup();
+            v
+        };
+        let cls = |k: &str| class_of(k).to_string();
+        let between_kinds = uniq(between.iter().filter(|c| c.kind != "reserve").map(|c| cls(&c.kind)).collect());
+        let mine = eff.touched();
+        let clash_kinds = uniq(
+            between
+                .iter()
+                .filter(|c| c.touched.intersection(&mine).next().is_some())
+                .map(|c| cls(&c.kind))
+                .collect(),
+        );
+        let ctxk = if between_kinds.is_empty() {
+            uniq(self.kinds.iter().map(|k| cls(k)).collect()).join("+")
+        } else {
+            format!("{}>{}", between_kinds.join("+"), cls(&op.kind()))
+        };
+        let ctx_clash = if clash_kinds.is_empty() {
+            ctxk.clone()
+        } else {
+            format!("{}>{}", clash_kinds.join("+"), cls(&op.kind()))
+        };
+        let keyf = |oracle: &str| format!("{ptag}/{oracle}/{ctxk}/{rel}");
         macro_rules! violate {
             ($owned:expr, $oracle:expr, $key:expr, $what:expr) => {{
                 if $owned {
@@ -960,7 +991,7 @@ impl World {
             Err(p) => {
                 out.violations.push(Violation::new(
                     "panic",
-                    &format!("{ptag}/panic/{kindsj}/{}", panic_site(&p)),
+                    &format!("{ptag}/panic/{ctxk}/{}", panic_site(&p)),
                     format!("{} panicked on a stale handle: {p}", op.kind()),
                     case.clone(),
                 ));
@@ -1063,7 +1094,7 @@ impl World {
                                 violate!(
                                     prop.owns_serial(),
                                     "lost-update",
-                                    keyf(&format!("ok-on-conflict/{lost}")),
+                                    format!("{ptag}/ok-on-conflict/{lost}/{ctx_clash}/{rel}"),
                                     format!(
                                         "{} on a stale handle returned Ok although {why}; table now {:?}",
                                         op.kind(),
@@ -1086,12 +1117,12 @@ impl World {
                         return out;
                     }
                     if let Some((t, _, _)) = &new_table {
-                        if let Err(m) = secondary_matches(t, &obs) {
+                        if let Err((attr, m)) = secondary_matches(t, &obs) {
                             violate!(
                                 prop == Prop::C03,
                                 "serial-replay-secondary",
-                                format!("{ptag}/secondary-mismatch/{kindsj}"),
-                                format!("{} returned Ok, rows as expected, but {m}", op.kind())
+                                format!("{ptag}/secondary-mismatch/{attr}/{ctxk}"),
+                                format!("{} returned Ok after {kindsj}, rows as expected, but {m}", op.kind())
                             );
                             if self.dead {
                                 return out;
@@ -1159,7 +1190,7 @@ impl World {
                         if prop == Prop::C04 {
                             out.violations.push(Violation::new(
                                 "unexpected-error",
-                                &format!("{ptag}/unexpected-error/{kindsj}/{}", err_class(e)),
+                                &format!("{ptag}/unexpected-error/{ctxk}/{}", err_class(e)),
                                 format!("{} failed with a non-conflict error: {e}", op.kind()),
                                 case.clone(),
                             ));
@@ -1184,8 +1215,12 @@ impl World {
             self.committed.push(Committed::of(&e));
             collect_k(&t, &mut self.k_values);
             self.tables.push(t);
+            let mut uids = e.touched();
+            uids.extend(e.relocates.iter().copied());
+            uids.extend(e.inserted.iter().map(uid_of));
             self.log.push(LogEntry {
                 kind: e.kind.clone(),
+                uids,
                 read_idx: read_at,
                 commit_idx: self.tables.len() - 1,
                 index_op: !e.index_add.is_empty() || e.kind == "optimize_indices",
@@ -1205,36 +1240,35 @@ impl World {
             let mut probes: Vec<(String, Option<i64>)> =
                 self.k_values.iter().map(|c| (format!("k = {c}"), Some(*c))).collect();
             probes.push(("k IS NULL".to_string(), None));
-            // classification: the last index op and the data ops it raced with
-            let race = {
-                let last_idx = self.log.iter().rev().find(|l| l.index_op);
-                match last_idx {
+            // classification: the last index op and the data ops (touching the rows on which the
+            // answers differ) it raced with
+            let log = self.log.clone();
+            let race_of = |diff: &BTreeSet<i32>| -> String {
+                let relevant = |x: &LogEntry| x.data_op && (diff.is_empty() || x.uids.intersection(diff).next().is_some());
+                let names = |v: Vec<&LogEntry>| {
+                    let mut k: Vec<String> = v.into_iter().map(|x| class_of(&x.kind).to_string()).collect();
+                    k.sort();
+                    k.dedup();
+                    k
+                };
+                match log.iter().rev().find(|l| l.index_op) {
                     Some(l) => {
-                        let mut before: Vec<String> = self
-                            .log
-                            .iter()
-                            .filter(|x| x.data_op && x.commit_idx > l.read_idx && x.commit_idx < l.commit_idx)
-                            .map(|x| x.kind.clone())
-                            .collect();
-                        let mut after: Vec<String> = self
-                            .log
-                            .iter()
-                            .filter(|x| x.data_op && x.commit_idx > l.commit_idx && x.read_idx < l.commit_idx)
-                            .map(|x| x.kind.clone())
-                            .collect();
-                        before.sort();
-                        before.dedup();
-                        after.sort();
-                        after.dedup();
-                        let mut later: Vec<String> = self
-                            .log
-                            .iter()
-                            .filter(|x| x.data_op && x.commit_idx > l.commit_idx && x.read_idx >= l.commit_idx)
-                            .map(|x| x.kind.clone())
-                            .collect();
-                        later.sort();
-                        later.dedup();
-                        let mut s = l.kind.clone();
+                        let before = names(
+                            log.iter()
+                                .filter(|x| relevant(x) && x.commit_idx > l.read_idx && x.commit_idx < l.commit_idx)
+                                .collect(),
+                        );
+                        let after = names(
+                            log.iter()
+                                .filter(|x| relevant(x) && x.commit_idx > l.commit_idx && x.read_idx < l.commit_idx)
+                                .collect(),
+                        );
+                        let later = names(
+                            log.iter()
+                                .filter(|x| relevant(x) && x.commit_idx > l.commit_idx && x.read_idx >= l.commit_idx)
+                                .collect(),
+                        );
+                        let mut s = "index".to_string();
                         if !before.is_empty() {
                             s += &format!("-rebased-over-{}", before.join("+"));
                         }
@@ -1249,13 +1283,7 @@ impl World {
                         }
                         s
                     }
-                    None => {
-                        let mut d: Vec<String> =
-                            self.log.iter().filter(|x| x.data_op).map(|x| x.kind.clone()).collect();
-                        d.sort();
-                        d.dedup();
-                        format!("base-index-then-{}", d.join("+"))
-                    }
+                    None => format!("index-then-{}", names(log.iter().filter(|x| relevant(x)).collect()).join("+")),
                 }
             };
             for (f, lit) in probes {
@@ -1283,19 +1311,28 @@ impl World {
                             } else {
                                 "index-differs"
                             };
-                            let who = if wo == model { dir } else { "scan-differs-from-model" };
+                            let who = if wo == model { "index-disagrees" } else { "scan-differs-from-model" };
+                            let _ = dir;
+                            let diff: BTreeSet<i32> = w
+                                .symmetric_difference(&model)
+                                .chain(wo.symmetric_difference(&model))
+                                .copied()
+                                .filter(|u| *u > -1000)
+                                .collect();
+                            let race = race_of(&diff);
                             violate!(
                                 own,
                                 "index-coverage",
                                 format!("c24/{who}/{race}"),
                                 format!(
-                                    "`{f}`: with index {w:?}, without index {wo:?}, model {model:?} after {kindsj}"
+                                    "`{f}` ({dir}): with index {w:?}, without index {wo:?}, model {model:?} after {kindsj}"
                                 )
                             );
                             break;
                         }
                     }
                     (a, b) => {
+                        let race = race_of(&BTreeSet::new());
                         violate!(
                             own,
                             "index-query",
@@ -1322,7 +1359,7 @@ impl World {
                         violate!(
                             own,
                             "rowid-scan",
-                            format!("c18/rowid-scan-differs/{kindsj}"),
+                            format!("c18/rowid-scan-differs/{ctxk}"),
                             format!("scan with _rowid returns rows {:?}, plain scan {:?}", o2.bag, obs.bag)
                         );
                     }
@@ -1351,9 +1388,8 @@ impl World {
                     own,
                     "stable-flag",
                     format!(
-                        "c18/stable-row-id-flag-lost/{}{}",
-                        self.kinds.last().cloned().unwrap_or_default(),
-                        if latest_model.rows.is_empty() { "-on-empty-table" } else { "" }
+                        "c18/stable-row-id-flag-lost/commit-on-{}table",
+                        if latest_model.rows.is_empty() { "empty-" } else { "" }
                     ),
                     format!(
                         "the table was created with stable row ids; after {kindsj} the manifest no longer carries the feature flag (row ids of later writes are addresses)"
@@ -1371,7 +1407,7 @@ impl World {
                     violate!(
                         own,
                         "rowid-unique",
-                        format!("c18/duplicate-rowid/{kindsj}"),
+                        format!("c18/duplicate-rowid/{ctxk}"),
                         format!("_rowid {rid} carried by uid {other} and uid {u} after {kindsj}")
                     );
                     bad = true;
@@ -1394,7 +1430,7 @@ impl World {
                                     violate!(
                                         own,
                                         "rowid-stable",
-                                        format!("c18/rowid-changed/{how}/{kindsj}"),
+                                        format!("c18/rowid-changed/{how}/{ctxk}"),
                                         format!("uid {u} ({how} by {}) had _rowid {old}, now {rid}", e.kind)
                                     );
                                     bad = true;
@@ -1428,7 +1464,7 @@ impl World {
                             violate!(
                                 own,
                                 "rowid-resolvable",
-                                format!("c18/take-rows-wrong/{kindsj}"),
+                                format!("c18/take-rows-wrong/{ctxk}"),
                                 format!(
                                     "take_rows({ids:?}) returned uids {got:?} (rows {got_bag:?}), scan says uids {want:?} (rows {:?})",
                                     obs.bag
@@ -1479,6 +1515,28 @@ fn classify_loss(prev: &MTable, real_bag: &[Vec<Cell>], cols: &[String], eff: &E
         return "resurrected-uid";
     }
     "overwritten-image"
+}
+
+/// Transaction class of an op kind (the row/column labels of the conflict matrix); classification
+/// keys are built from classes so that one root cause gets one key whatever op pair exposes it.
+pub fn class_of(kind: &str) -> &'static str {
+    match kind {
+        "append" => "Append",
+        "delete" | "delete_all" => "Delete",
+        "update" | "upsert_full" | "merge_update_full" => "UpdateRows",
+        "merge_partial" => "UpdateColumns",
+        "compact" | "compact_defer" => "Rewrite",
+        "optimize_indices" => "CreateIndex",
+        "add_column" | "drop_column" | "rename" => "SchemaChange",
+        "schema_meta" => "UpdateSchemaMeta",
+        "overwrite" => "Overwrite",
+        "restore" => "Restore",
+        "reserve" => "Reserve",
+        "data_replacement" => "DataReplacement",
+        k if k.starts_with("create_index") => "CreateIndex",
+        k if k.starts_with("config") => "UpdateConfig",
+        _ => "Other",
+    }
 }
 
 /// first 60 characters of a message with digits and hex runs removed (aggregation key)
